@@ -366,8 +366,50 @@ def check_case(case):
                    f"as right after grounding; eff={case['eff']}", str(sorted(map(key, want_groups))), str(again)[:300],
                    tags=case["tags"] + ["after-use"])
             break
+        # grounding again: a second ground() of the same operator, and a ground() after the operator has been pointed at
+        # another call of the same schema (grounded_call_objects), report that call's literals - nothing accumulates
+        calls_all = list(S.calls(act, pg.objs))
+        other = calls_all[(calls_all.index(args) + 1) % len(calls_all)]
+        beta2 = dict(zip([p for p, _ in act.params], other))
+
+        def reground():
+            op2 = operator(pg.D, "a", args, pobjs)
+            op2.ground()
+            op2.ground()
+            same = ([(c, d, n) for c, d, n in _groups_of(op2)], observed_pre(op2.grounded_preconditions))
+            op2.grounded_call_objects = list(other)
+            op2.ground()
+            moved = ([(c, d, n) for c, d, n in _groups_of(op2)], observed_pre(op2.grounded_preconditions))
+            return same, moved
+        rg = guard(reground)
+        r.count("transitions")
+        want2_groups = expected_groups(S, schema.eff, beta2)
+        want2, want2_lifted = expected_pre(S, schema.pre, beta2)
+        if isinstance(rg, Raised) or sorted(map(key, rg[0][0])) != sorted(map(key, want_groups)) or set(rg[0][1]) != set(got):
+            r.outcome("grounded-changed-by-regrounding")
+            r.fail("effect-literals", f"(a {' '.join(args)}): after a second ground() the operator reports groups "
+                   f"{sorted(map(key, rg[0][0])) if not isinstance(rg, Raised) else rg}, expected {sorted(map(key, want_groups))} as after "
+                   f"the first; eff={case['eff']}", str(sorted(map(key, want_groups))), str(rg)[:300], tags=case["tags"] + ["reground"])
+            break
+        if sorted(map(key, rg[1][0])) != sorted(map(key, want2_groups)) or set(rg[1][1]) not in (set(want2), set(want2_lifted)):
+            r.outcome("grounded-changed-by-regrounding")
+            r.fail("effect-literals", f"operator of (a {' '.join(args)}) pointed at (a {' '.join(other)}) and grounded again reports "
+                   f"groups {sorted(map(key, rg[1][0]))} / preconditions {sorted(rg[1][1].items())}, expected "
+                   f"{sorted(map(key, want2_groups))} / {sorted(want2.items())}; pre={case['pre']} eff={case['eff']}",
+                   str(sorted(map(key, want2_groups))), str(rg[1])[:300], tags=case["tags"] + ["retarget"])
+            break
         r.outcome("agree")
     return r
+
+
+def _groups_of(op):
+    out = []
+    for ge in op.grounded_effects:
+        cond = observed_pre(ge.grounded_antecedents) if ge.grounded_antecedents is not None else None
+        disc = Counter(sexp.dumps(norm(sexp.read(p.untyped_representation))) for p in ge.grounded_discrete_effects)
+        nume = Counter(sexp.dumps(norm(sexp.read(e.to_pddl(12)))) for e in ge.grounded_numeric_effects)
+        out.append((cond, disc, nume))
+    return out
 
 
 def _lifted_under_forall(case, fail):
